@@ -24,13 +24,17 @@ import (
 type c09Task struct {
 	id       int
 	rec      *c09Rec
-	added    int32 // AddTask returned
+	gate     chan struct{} // non-nil: the task keeps its worker busy until the gate is closed
+	added    int32         // AddTask returned
 	started  int32
 	finished int32
 }
 
 func (t *c09Task) Run(tid uint64) error {
 	atomic.AddInt32(&t.started, 1)
+	if t.gate != nil {
+		<-t.gate
+	}
 	t.rec.taskRun(t.id)
 	atomic.AddInt32(&t.finished, 1)
 	return nil
@@ -98,6 +102,19 @@ func (r *c09Rec) releaseAll() {
 	r.mu.Unlock()
 }
 
+// countLabels: how many recorded labels start with the prefix.
+func (r *c09Rec) countLabels(prefix string) int {
+	r.mu.Lock()
+	defer r.mu.Unlock()
+	n := 0
+	for _, l := range r.labels {
+		if strings.HasPrefix(l, prefix) {
+			n++
+		}
+	}
+	return n
+}
+
 func (r *c09Rec) copyTrace() ([]string, []string) {
 	r.mu.Lock()
 	defer r.mu.Unlock()
@@ -137,7 +154,9 @@ func (r *c09Rec) handle(point string, args ...interface{}) {
 		ch := r.release
 		r.mu.Unlock()
 		<-ch
-		return
+		// the event is recorded after the release: the goroutine is still inside the same
+		// lock region (if any), so the order of that lock's events is unaffected
+		r.mu.Lock()
 	}
 	defer r.mu.Unlock()
 	emit := func(f string, a ...interface{}) { r.labels = append(r.labels, fmt.Sprintf(f, a...)) }
